@@ -209,7 +209,14 @@ static Built build(const CaseSpec& c)
         else
         {
             Bytes d = pattern(s.len, s.pat);
-            if (s.retag)
+            if (s.retag == 2)
+            {
+                // given to the packet with ANOTHER LENGTH (and other bytes), then replaced in place by assignment through getPayload()
+                Bytes other = pattern(s.len / 2 + 3, (uint8_t) (s.pat ^ 0x3C));
+                p.setPayload(Payload(PayloadType(static_cast<CmpHeader::MessageType>(s.mt), s.pt), other.data(), other.size()));
+                p.getPayload() = Payload(PayloadType(static_cast<CmpHeader::MessageType>(s.mt), s.pt), d.data(), d.size());
+            }
+            else if (s.retag)
             {
                 // given to the packet as a payload of another message type and payload type, then edited in place into the intended one
                 p.setPayload(Payload(PayloadType(static_cast<CmpHeader::MessageType>(s.mt == 1 ? 3 : 1), (uint8_t) (s.pt ^ 0x55)), d.data(), d.size()));
@@ -926,6 +933,10 @@ static void runTask(W& w, const std::string& prop, const Domain& d, const Task& 
             for (size_t q = 0; q < c.b.size(); ++q)
                 if (i == c.b.size() || q == i)
                     c.b[q].retag = 1;
+            exec();
+            for (size_t q = 0; q < c.b.size(); ++q)
+                if (c.b[q].retag)
+                    c.b[q].retag = 2;   // ... and payloads whose LENGTH changed in place after they were given to the packet
             exec();
         }
         // packets of one batch with protocol versions of their own (frame-level properties only: what version a frame announces for
